@@ -934,11 +934,16 @@ restore_ownership (void *data)
     {
       _dbus_assert (d->hash_entry != NULL);
       bus_service_relink (d->service, d->hash_entry);
+      /* now in use; an entry that is not needed is freed by
+       * free_ownership_restore_data() */
+      d->hash_entry = NULL;
     }
-  else
-    {
-      _dbus_assert (d->hash_entry == NULL);
-    }
+
+  /* bus_service_swap_owner() leaves the owner in the queue, in second
+   * place; bus_service_remove_owner() takes it out and drops the
+   * queue's reference, which has to be taken again */
+  if (!_dbus_list_remove (&d->service->owners, d->owner))
+    bus_owner_ref (d->owner);
   
   /* We don't need to send messages notifying of these
    * changes, since we're reverting something that was
@@ -955,16 +960,11 @@ restore_ownership (void *data)
   
   _dbus_list_insert_before_link (&d->service->owners, link, d->owner_link);
 
-  /* Note that removing then restoring this changes the order in which
-   * ServiceDeleted messages are sent on destruction of the
-   * connection.  This should be OK as the only guarantee there is
-   * that the base service is destroyed last, and we never even
-   * tentatively remove the base service.
+  /* The service never left the connection's list of owned services:
+   * bus_owner_unref() only takes it out when the last reference to
+   * the owner goes, and this hook holds one. The preallocated
+   * service_link is freed by free_ownership_restore_data().
    */
-  bus_connection_add_owned_service_link (d->owner->conn, d->service_link);
-  
-  d->hash_entry = NULL;
-  d->service_link = NULL;
   d->owner_link = NULL;
 }
 
